@@ -50,8 +50,7 @@ StepReset ==
   LET e == Rec[l] IN
   /\ e.ev = "reset"
   /\ IF e.ok
-     THEN /\ Report(<<P("FreshBufferEmpty", e.len = 0), P("BufferWindow", Len(e.buf) = e.cap),
-                      P("AccessibleInsideAllocation", e.mo <= e.po /\ e.po + e.cap <= e.mo + e.ms)>>)
+     THEN /\ Report(<<P("FreshBufferEmpty", e.len = 0), P("BufferWindow", Len(e.buf) = e.cap)>>)
           /\ c' = [po |-> e.po, cap |-> e.cap, bmod |-> e.base_mod, nle |-> e.native_le, mo |-> e.mo, ms |-> e.ms]
           /\ obs' = ObsOfEvent(e)
           /\ live' = TRUE
@@ -69,7 +68,8 @@ StepOp ==
           /\ Drift(e.op, e.res, post)
           /\ obs' = post
           /\ mon' = MonNext(mon, obs, e.op, e.res, post)
-          /\ live' = ~dead
+          \* a buffer whose len left its capacity is broken: what later calls do with it says nothing new
+          /\ live' = (~dead /\ post.len <= c.cap)
      ELSE UNCHANGED <<obs, mon, live>>
   /\ UNCHANGED c
   /\ l' = l + 1
